@@ -1,5 +1,6 @@
 import ArimModel.RayCache
 import ArimProofs.Lemmas.RayCache
+import ArimProofs.Tie.C14
 /-! # C14 — ray-geometry caching is transparent for every sequence of queries -/
 namespace Arim.C14
 open Arim.RayCache
@@ -305,5 +306,97 @@ example : (query gNoSide (run gNoSide {} busy) .outCart (-3) true).1 =
     (query gNoSide (run gNoSide {} busy) .outCart 2 true).1 :=
   neg_index_interchangeable gNoSide rfl busy .outCart (-3) (by decide) true
 example : Inv gNoSide (run gNoSide {} busy) := inv_run gNoSide rfl busy {} (inv_init _)
+
+
+/-! ## 9. on the source as translated on this run (`ArimProofs/Generated/SrcC14.lean`, tied by `ArimProofs/Tie/C14.lean`)
+
+`SrcC14.query`, `SrcC14.clearIntermediate`, `SrcC14.clearAll`, `SrcC14.precomputeCleansUpOnError` are regenerated from
+`/repo/src/arim/ray.py` (decorator, 17 cached methods, clearing methods, `precompute`) every time this file is built.
+`srcStep` runs one operation of a history with them; the model functions (`beamspread`, ...) are sequences of final queries,
+issued through `SrcC14.query` as well. -/
+
+/-- a block of queries, issued through the translated `query` -/
+def srcRunQueries (g : Geo) (s : St) : List (Meth × Int × Bool) → List Res × St
+  | [] => ([], s)
+  | (m, r, f) :: rest =>
+    match Arim.SrcC14.query g s m r f with
+    | (.error e, s') => ([.error e], s')
+    | (.ok v, s') => let (rs, s'') := srcRunQueries g s' rest; (.ok v :: rs, s'')
+
+/-- one operation of a history, made of the translated pieces only -/
+def srcStep (g : Geo) (s : St) : Op → List Res × St
+  | .query m r f => let (a, s') := Arim.SrcC14.query g s m r f; ([a], s')
+  | .clearIntermediate => ([], Arim.SrcC14.clearIntermediate s)
+  | .clearAll => ([], Arim.SrcC14.clearAll s)
+  | .precompute ops =>
+    let (rs, s') := srcRunQueries g s ops
+    if rs.any (fun r => match r with | .error _ => true | .ok _ => false) then
+      (rs, if Arim.SrcC14.precomputeCleansUpOnError then Arim.SrcC14.clearIntermediate s' else s')
+    else (rs, Arim.SrcC14.clearIntermediate s')
+  | .beamspread => srcRunQueries g s (beamspreadQueries g)
+  | .revBeamspread => srcRunQueries g s (revBeamspreadQueries g)
+  | .transRefl => srcRunQueries g s (transReflQueries g)
+  | .revTransRefl => srcRunQueries g s (transReflQueries g)
+
+def srcRun (g : Geo) (s : St) (ops : List Op) : St := ops.foldl (fun s op => (srcStep g s op).2) s
+
+theorem srcRunQueries_eq (g : Geo) (h : g.rawZeroTest = false) (qs : List (Meth × Int × Bool)) :
+    ∀ s, srcRunQueries g s qs = runQueries g s qs := by
+  induction qs with
+  | nil => intro s; rfl
+  | cons q rest ih =>
+    obtain ⟨m, r, f⟩ := q
+    intro s
+    simp only [srcRunQueries, runQueries, Arim.Tie.C14.tie_query g h, ih]
+    rfl
+
+/-- **tie, one operation**: a step made of the translated pieces is the model's step -/
+theorem srcStep_eq (g : Geo) (h : g.rawZeroTest = false) (s : St) (op : Op) : srcStep g s op = step g s op := by
+  cases op with
+  | query m r f => simp only [srcStep, step, Arim.Tie.C14.tie_query g h]
+  | clearIntermediate => rfl
+  | clearAll => rfl
+  | precompute ops =>
+    simp only [srcStep, step, srcRunQueries_eq g h, Arim.Tie.C14.tie_precompute, Arim.Tie.C14.tie_clearIntermediate]
+    rfl
+  | beamspread => exact srcRunQueries_eq g h _ s
+  | revBeamspread => exact srcRunQueries_eq g h _ s
+  | transRefl => exact srcRunQueries_eq g h _ s
+  | revTransRefl => exact srcRunQueries_eq g h _ s
+
+theorem srcRun_eq (g : Geo) (h : g.rawZeroTest = false) (ops : List Op) : ∀ s, srcRun g s ops = run g s ops := by
+  induction ops with
+  | nil => intro s; rfl
+  | cons op ops ih =>
+    intro s
+    show srcRun g (srcStep g s op).2 ops = run g (step g s op).2 ops
+    rw [srcStep_eq g h, ih]
+
+/-- **Main theorem on the source.** After ANY history run with the translated decorator, methods and clearing operations,
+every translated query answers exactly like a fresh object. -/
+theorem src_cache_transparent (g : Geo) (h : g.rawZeroTest = false) (ops : List Op) (m : Meth) (r : Int) (fin : Bool) :
+    (Arim.SrcC14.query g (srcRun g {} ops) m r fin).1 = (Arim.SrcC14.query g {} m r true).1 := by
+  rw [srcRun_eq g h, Arim.Tie.C14.tie_query g h]
+  exact cache_transparent g h ops m r fin
+
+/-- every operation (queries, precompute blocks, model functions) after any history answers what it answers first thing on
+a fresh object — on the translated source -/
+theorem src_history_transparent (g : Geo) (h : g.rawZeroTest = false) (ops : List Op) (op : Op) :
+    (srcStep g (srcRun g {} ops) op).1 = (srcStep g {} op).1 := by
+  rw [srcRun_eq g h, srcStep_eq g h, srcStep_eq g h]
+  exact history_transparent g h ops op
+
+/-- negative and positive indices are interchangeable after any history — on the translated source -/
+theorem src_neg_index_interchangeable (g : Geo) (h : g.rawZeroTest = false) (ops : List Op) (m : Meth)
+    (r : Int) (hr : -(g.n : Int) ≤ r ∧ r < 0) (fin : Bool) :
+    (Arim.SrcC14.query g (srcRun g {} ops) m r fin).1 = (Arim.SrcC14.query g (srcRun g {} ops) m (r + g.n) fin).1 := by
+  rw [srcRun_eq g h, Arim.Tie.C14.tie_query g h]
+  exact neg_index_interchangeable g h ops m r hr fin
+
+/-- the translated history on a concrete geometry really runs (non-vacuity): the model functions, precompute blocks and
+clearing operations of `busy` leave the same cache as the model's run -/
+example : (srcRun (g3 false) {} [.beamspread, .query .signedOut (-2) false, .clearIntermediate, .revTransRefl]).cache.length
+    = (run (g3 false) {} [.beamspread, .query .signedOut (-2) false, .clearIntermediate, .revTransRefl]).cache.length := by
+  rw [srcRun_eq (g3 false) rfl]
 
 end Arim.C14
